@@ -269,7 +269,9 @@ theorem FolderObs.health_lt {o : FolderObs} {f : FolderState} (ok : o.Ok) (wf : 
   cases o.scan
   · simpa using wf.1
   · cases f.scanned
-    · exact ok
+    · cases o.sameFolder f
+      · simpa using wf.2.1
+      · simpa [FolderObs.Ok] using ok
     · simpa using wf.2.1
 
 theorem C02_folder_in_space (o : FolderObs) (st : SimState) (w : WfState st) (ok : o.Ok) :
@@ -287,7 +289,7 @@ theorem C02_folder_ok_next (o : FolderObs) (st : SimState) (w : WfState st) (ok 
     (o.next st).Ok := by
   unfold FolderObs.next
   cases hf : o.find st with
-  | none => exact (by decide : (0 : Nat) ∈ FileSystemItemHealthStatus.values)
+  | none => exact ok
   | some f => exact FolderObs.health_lt ok (FolderObs.find_wf w hf)
 
 /-! ### NIC / port -/
